@@ -59,6 +59,11 @@ func c08Gen(g *Gen) {
 	for _, s := range c08Corpus {
 		emit("corpus", s, true)
 	}
+	// the format tool on a directory tree: FormatFiles / Format, plain directory / symbolic link, other extension, -help
+	for v := 0; v < 8; v++ {
+		g.Count("format-tree")
+		g.Emit(fmt.Sprintf("FMT %d", v))
+	}
 
 	// ---- exhaustive depth-2 operator nestings
 	atomSets := [][3]string{{"a", "b", "c"}, {"t", "f", "t"}, {"s", "l", "1"}}
